@@ -453,7 +453,10 @@ PROPS = {
                    f"{ALGC}._greedy_distribute_remaining_power",
                    # admission: what reaches the distribution at all
                    f"{BMGR}._get_bounds#one_group", f"{BMGR}._get_bounds#two_groups",
-                   f"{BMGR}._check_request#one_group", f"{BMGR}._check_request#two_groups"],
+                   f"{BMGR}._check_request#one_group", f"{BMGR}._check_request#two_groups",
+                   # what the algorithm sees of a group of batteries: aggregated SoC (headroom) and power bounds
+                   f"{ALGO}:AggregatedBatteryData.__init__", f"{ALGO}:_aggregate_battery_power_bounds#n1",
+                   f"{ALGO}:_aggregate_battery_power_bounds#n2", f"{ALGO}:_aggregate_battery_power_bounds#n3"],
         lemmas=[],
         bounded=[dict(kind="native_script", name="distribute_power: per-inverter and per-group bounds, no-headroom groups (C02 clauses)",
                       module="native.explore_distribution")],
